@@ -1,3 +1,4 @@
+import FractopoModel.Props.C01
 import FractopoModel.Lemmas.SnapDriver
 import FractopoModel.Generated.Windows
 import FractopoModel.Generated.SnapConstants
@@ -69,5 +70,25 @@ theorem C03_generated_loop_bound (ord : SnapL.Ord) (t margin : Rat) (areas : Lis
     (traces out : List Polyline) (n : Nat) (h : Gen.snap_driver pass_ traces allowed (allowed + 2) = .ok (out, n)) : n ≤ allowed := by
   rw [SnapDriver.generated_driver ord t margin areas allowed pass_ hpass] at h
   exact SnapL.snapLoop_bound ord t margin areas allowed traces out n h
+
+/-- **Extraction either completes or raises what the snapping stage raised.** For the regenerated `branches_and_nodes` (orchestration and
+snapping pass regenerated, `C01_generated_pipeline`): when the model's snapping loop on the prepared traces raises -- `RecursionError`
+after more than `allowed_loops` repeat passes (`C03_loop_bound`), or a `ValueError` of a pass -- extraction raises exactly that and
+returns no tables; when it completes, the only other exception is the `TypeError` of the noding dispatch. In particular a map that
+cannot be made stable within the allowed number of passes is refused, never silently extracted. -/
+theorem C03_generated_raise {A U N : Type} (ord : SnapL.Ord) (dedupe : List Polyline → List Polyline) (polys_of : A → List Polygon) (is_ls : Polyline → Bool)
+    (crop : List Polyline → List A → List Polyline) (len : Polyline → Rat) (union_all : List Polyline → U) (u_is_multi u_is_line : U → Bool)
+    (u_parts : U → List Polyline) (node_table : List Polyline → List A → Rat → List N × List String)
+    (branch_labels : List Polyline → List N → List String → Rat → List String)
+    (dist : Pt → Polyline → Rat) (bdist : Pt → Polygon → Rat) (t : Rat)
+    (hdist : ∀ ep l, decide (dist ep l < t) = SnapL.near t ep l)
+    (hbd : ∀ ep (pg : Polygon), decide (bdist ep pg < t) = decide (pg.boundaryDist2 ep < t * t))
+    (traces : List Polyline) (areas : List A) (allowed : Nat) (clipped : Bool) (e : String)
+    (h : SnapL.snapLoop ord t (t * 20) ((areas.map polys_of).flatMap id) allowed (Pipeline.prepared dedupe is_ls crop traces areas clipped) = .error e) :
+    Gen.branches_and_nodes dedupe polys_of is_ls crop
+        (fun tr thr polys => Gen.snap_traces SnapStageL.boundsE (SnapStageL.indexE ord) SnapStageL.simpleSnapG SnapL.ends bdist dist (fun ep l => SnapL.onLine ep l)
+          (fun l ep th => Snap.insertGeo l ep th) tr thr (some polys))
+        len union_all u_is_multi u_is_line u_parts node_table branch_labels traces areas t allowed clipped (allowed + 2) = .error e := by
+  rw [C01.C01_generated_pipeline ord dedupe polys_of is_ls crop len union_all u_is_multi u_is_line u_parts node_table branch_labels dist bdist t hdist hbd, h]
 
 end C03
